@@ -12,6 +12,26 @@ ASSUME = [
 ]
 
 
+def inductive(ctx, quick):
+    """FlushInd.tla: the C03 / C11 invariants of Flush.tla follow from an inductive invariant, for a fixed number of nodes and every
+    gate size, failure budget, number of attempts, clean set and foreign cache contents (Apalache). A counterexample to one of the
+    obligations is a defect of the specification (exit 2); an obligation Apalache does not finish is only recorded."""
+    obligations = [("Init", "IndInv", 0), ("IndInit", "IndInv", 1), ("IndInit", "Props", 0)]
+    res = dict(module="FlushInd.tla", tool="apalache", obligations=[], non_vacuity=[])
+    import concurrent.futures
+    jobs = [(c, i, v, n, True) for c in (["ConstInit"] if quick else ["ConstInit", "ConstInitBig"]) for (i, v, n) in obligations]
+    jobs += [(c, "IndInit", "IndInv", 1, False) for c in ["ConstInitAsis", "ConstInitNoPrefix", "ConstInitEarly"]]
+    with concurrent.futures.ThreadPoolExecutor(3) as ex:
+        outs = list(ex.map(lambda j: run_apalache(ctx, "FlushInd.tla", j[0], j[1], j[2], j[3], timeout=600 if quick else 2400), jobs))
+    for (c, i, v, n, want_ok), (r, out) in zip(jobs, outs):
+        (res["obligations"] if want_ok else res["non_vacuity"]).append(dict(cinit=c, init=i, inv=v, length=n, outcome=r))
+        if want_ok and r == "error":
+            raise Undecided("inductive invariant FlushInd.tla: obligation %s /\\ [Next]^%d => %s has a counterexample (%s)\n%s" % (i, n, v, c, out[-2000:]))
+        if not want_ok and r == "ok":
+            raise Undecided("non-vacuity: the deviation %s was expected to break the induction of FlushInd.tla and did not" % c)
+    return res
+
+
 def check(ctx):
     quick = ctx.quick()
     log("== C03 (%s, seed %d): SuccessImpliesAllReachableStored NoWriteInFlightAtReturn ErrorsSurface FailureLeavesTreeUsable NoSkipAcrossStores Termination" % (ctx.tier, ctx.seed))
@@ -23,6 +43,7 @@ def check(ctx):
     for c in ["MC_Flush_asis.cfg", "MC_Flush_noprefix.cfg", "MC_Flush_early.cfg"]:   # non-vacuity
         r = model_check(ctx, "Flush.tla", c, expect_ok=False, workers=4, heap=4, timeout=600)
         mc.append(dict(cfg=c, expected="counterexample", found=r["error"]))
+    mc.append(inductive(ctx, quick))
     drv = build_harness(ctx)
     trace = os.path.join(ctx.scratch, "flush.ndjson")
     # the driver paces real goroutines (it mostly waits): the cases are split over several driver processes
